@@ -151,8 +151,8 @@ def gen_near_one_case(rng):
     m["init"] = [[C[0], "1/2"], [rng.choice([x for x in range(m["n"]) if x != C[0]] or [C[0]]), "1/2"]]
     if m["init"][0][0] == m["init"][1][0]:
         m["init"] = [[C[0], "1"]]
-    return {"mdp": m, "policy": gen_policy(rng, m, rng.random() < .25), "explicit_lists": rng.random() < .3,
-            "family": "gamma-near-one"}
+    return with_reuse(rng, {"mdp": m, "policy": gen_policy(rng, m, rng.random() < .25), "explicit_lists": rng.random() < .3,
+                            "family": "gamma-near-one"})
 
 
 def gen_case(rng, tier):
@@ -188,7 +188,21 @@ def gen_case(rng, tier):
     else:
         m = gen_mdp.gen_mdp(rng, nmax=nmax, amax=3, min_states=1 if rng.random() < .05 else 2)
     nondy = rng.random() < (.25 if undisc else .25)
-    return {"mdp": m, "policy": gen_policy(rng, m, nondy), "explicit_lists": rng.random() < .3}
+    return with_reuse(rng, {"mdp": m, "policy": gen_policy(rng, m, nondy), "explicit_lists": rng.random() < .3})
+
+
+def with_reuse(rng, case):
+    """multi-step scenario (35% of cases): the same policy object is evaluated again on 1-2 MDPs with the same
+    dynamics but differently ordered state/action lists, and/or once more on the first MDP"""
+    if rng.random() < .35:
+        m = case["mdp"]
+        steps = []
+        for _ in range(rng.randint(1, 2)):
+            steps.append({"skeys": [rng.random() for _ in range(m["n"])], "akeys": [rng.random() for _ in range(m["nA"])]})
+        if rng.random() < .5:
+            steps.insert(rng.randint(0, len(steps)), "same")
+        case["reuse"] = steps
+    return case
 
 
 # ---------------------------------------------------------------------------------------------
@@ -392,7 +406,8 @@ def run(ctx):
     cnt = {k: 0 for k in ("discounted", "undiscounted", "form_tab", "form_fun", "nondyadic", "neginf_cases", "mixed_finite_and_neginf",
                           "occinf_cases", "q_absorbing_nonzero_cases", "policy_on_larger_state_list", "permuted_lists",
                           "stochastic_policy_rows", "oracle_agree", "explicit_lists", "zero_prob_entries", "tau_certificates_accepted",
-                          "gamma_near_one_cases", "rounding_watch_cases")}
+                          "gamma_near_one_cases", "rounding_watch_cases", "multi_step_cases", "reused_policy_evaluations",
+                          "reused_on_reordered_lists")}
     orcs = {}
     for i, (case, res) in enumerate(zip(cases, impl)):
         g = F(case["mdp"]["gamma"])
@@ -401,56 +416,72 @@ def run(ctx):
         if "error" in res:
             ctx.violation(pre + "impl-error:" + res["error"].split(":")[0], {"case": case, "error": res["error"], "trace": res.get("trace")}, found=True)
             continue
-        sl, al = res["state_list"], res["action_list"]
-        P, R, av, absf, ini = gen_mdp.arrays(case["mdp"], sl, al)
-        pterm, pi, table, psl_ids, pal_ids = policy_views(case, res)
-        # harness <-> impl agreement on the plumbing (cheap, exact)
-        if psl_ids != res["psl"] or pal_ids != res["pal"]:
-            ctx.violation("C02:harness-lists-mismatch", {"case": case, "impl": res}, found=False)
-            continue
-        if table is not None and (res.get("policy_type") != "TabularPolicy" or
-                                  [[float(vlib.frac(x)) for x in r] for r in res["table"]] != table):
-            ctx.violation(pre + "to_tabular-table-differs", {"case": case, "impl_table": res["table"], "expected": table}, found=True)
-            continue
-        cnt["undiscounted" if und else "discounted"] += 1
-        cnt["gamma_near_one_cases"] += int(case.get("family") == "gamma-near-one")
-        cnt["rounding_watch_cases"] += int(case.get("family") == "rounding-watch")
-        cnt["form_" + case["policy"]["form"]] += 1
-        cnt["nondyadic"] += int(case["policy"]["nondyadic"])
-        cnt["explicit_lists"] += int(case["explicit_lists"])
-        cnt["policy_on_larger_state_list"] += int(len(psl_ids) > len(sl))
-        cnt["permuted_lists"] += int(psl_ids[:len(sl)] != sl or pal_ids != al)
-        cnt["stochastic_policy_rows"] += int(any(0 < x < 1 for r in pi for x in r))
-        cnt["zero_prob_entries"] += int(any(F(p) == 0 for r in case["policy"]["rows"].values() for a, p in r))
-        cnt["neginf_cases"] += int("-inf" in res["V"])
-        cnt["mixed_finite_and_neginf"] += int("-inf" in res["V"] and any(not isinstance(v, str) and vlib.frac(v) != 0 for v in res["V"]))
-        cnt["occinf_cases"] += int("inf" in res["occ"])
-        ab = absorbing_vec(P, R, av, absf)
-        if any(ab[s] and not isinstance(x, str) and vlib.frac(x) != 0 for s in range(len(sl)) for x in res["Q"][s]):
-            cnt["q_absorbing_nonzero_cases"] += 1     # non-gating observation (coordinator's decision)
-        mt = " ".join([nat(len(sl)), nat(len(al)), qten(P), qten(R), bmat(av), blist(absf), qlist(ini), q(g)])
-        out = " ".join([coqlist(ext(x) for x in res["V"]), coqlist(coqlist(ext(x) for x in r) for r in res["Q"]),
-                        coqlist(ext(x) for x in res["occ"]), ext(res["initial_value"])])
-        orc = oracle(P, R, av, absf, ini, g, pi)
-        orcs[i] = (orc, pre)
-        tau = ""
-        if und:
-            tau = " " + qlist(orc["tau"] if orc and orc.get("tau") else [0] * len(sl))
-        terms.append("%s %s %s %s %s%s" % ("chku" if und else "chkd", mt, pterm, out, tol_term(res), tau))
-        meta.append(i)
+        evs = res.get("evals") or [res]
+        for k, ev in enumerate(evs):
+            # every evaluation of the (same) policy object is judged on its own: the MDP arrays and the
+            # model's policy matrix are built in the index order of the MDP it was evaluated on
+            r = dict(res)
+            r.pop("evals", None)
+            r.update(ev)
+            prek = pre + ("reused-policy-object:" if k > 0 else "")
+            if "error" in ev:
+                ctx.violation(prek + "impl-error:" + ev["error"].split(":")[0], {"case": case, "step": k, "error": ev["error"]}, found=True)
+                continue
+            sl, al = r["state_list"], r["action_list"]
+            P, R, av, absf, ini = gen_mdp.arrays(case["mdp"], sl, al)
+            pterm, pi, table, psl_ids, pal_ids = policy_views(case, r)
+            # harness <-> impl agreement on the plumbing (cheap, exact)
+            if psl_ids != res["psl"] or pal_ids != res["pal"]:
+                ctx.violation("C02:harness-lists-mismatch", {"case": case, "impl": res}, found=False)
+                break
+            if k == 0:
+                if table is not None and (res.get("policy_type") != "TabularPolicy" or
+                                          [[float(vlib.frac(x)) for x in rr] for rr in res["table"]] != table):
+                    ctx.violation(pre + "to_tabular-table-differs", {"case": case, "impl_table": res["table"], "expected": table}, found=True)
+                    break
+                cnt["undiscounted" if und else "discounted"] += 1
+                cnt["gamma_near_one_cases"] += int(case.get("family") == "gamma-near-one")
+                cnt["rounding_watch_cases"] += int(case.get("family") == "rounding-watch")
+                cnt["form_" + case["policy"]["form"]] += 1
+                cnt["nondyadic"] += int(case["policy"]["nondyadic"])
+                cnt["explicit_lists"] += int(case["explicit_lists"])
+                cnt["policy_on_larger_state_list"] += int(len(psl_ids) > len(sl))
+                cnt["permuted_lists"] += int(psl_ids[:len(sl)] != sl or pal_ids != al)
+                cnt["stochastic_policy_rows"] += int(any(0 < x < 1 for rr in pi for x in rr))
+                cnt["zero_prob_entries"] += int(any(F(p) == 0 for rr in case["policy"]["rows"].values() for a, p in rr))
+                cnt["neginf_cases"] += int("-inf" in r["V"])
+                cnt["mixed_finite_and_neginf"] += int("-inf" in r["V"] and any(not isinstance(v, str) and vlib.frac(v) != 0 for v in r["V"]))
+                cnt["occinf_cases"] += int("inf" in r["occ"])
+                ab = absorbing_vec(P, R, av, absf)
+                if any(ab[s] and not isinstance(x, str) and vlib.frac(x) != 0 for s in range(len(sl)) for x in r["Q"][s]):
+                    cnt["q_absorbing_nonzero_cases"] += 1     # non-gating observation (coordinator's decision)
+                cnt["multi_step_cases"] += int(len(evs) > 1)
+            else:
+                cnt["reused_policy_evaluations"] += 1
+                cnt["reused_on_reordered_lists"] += int(sl != evs[0]["state_list"] or al != evs[0]["action_list"])
+            mt = " ".join([nat(len(sl)), nat(len(al)), qten(P), qten(R), bmat(av), blist(absf), qlist(ini), q(g)])
+            out = " ".join([coqlist(ext(x) for x in r["V"]), coqlist(coqlist(ext(x) for x in rr) for rr in r["Q"]),
+                            coqlist(ext(x) for x in r["occ"]), ext(r["initial_value"])])
+            orc = oracle(P, R, av, absf, ini, g, pi)
+            orcs[(i, k)] = (orc, prek, r)
+            tau = ""
+            if und:
+                tau = " " + qlist(orc["tau"] if orc and orc.get("tau") else [0] * len(sl))
+            terms.append("%s %s %s %s %s%s" % ("chku" if und else "chkd", mt, pterm, out, tol_term(r), tau))
+            meta.append((i, k))
     vals = ctx.coq(PRE, terms, shard=25 if tier == "quick" else 100)
     nchk = 0
     distinct = set()
-    for i, v in zip(meta, vals):
-        case, res = cases[i], impl[i]
+    for (i, k), v in zip(meta, vals):
+        case = cases[i]
         g = F(case["mdp"]["gamma"])
         und = g >= 1
-        orc, pre = orcs[i]
+        orc, pre, res = orcs[(i, k)]
         if isinstance(v, vlib.CoqError):
-            ctx.violation("C02:coq-evaluation-failed", {"case": case, "error": str(v)[:800]}, found=False)
+            ctx.violation("C02:coq-evaluation-failed", {"case": case, "step": k, "error": str(v)[:800]}, found=False)
             continue
         nchk += 1
-        if any(not a for a in absorbing_vec(*gen_mdp.arrays(case["mdp"], res["state_list"], res["action_list"])[:4])):
+        if k == 0 and any(not a for a in absorbing_vec(*gen_mdp.arrays(case["mdp"], res["state_list"], res["action_list"])[:4])):
             distinct.add(vlib.structural_hash([case["mdp"], case["policy"]]))
         names = CL_UNDISC if und else CL_DISC
         if und:
@@ -462,12 +493,12 @@ def run(ctx):
                 cnt["tau_certificates_accepted"] += 1
             else:
                 ctx.violation("C02:undisc:absorption-time-certificate-rejected",
-                              {"case": case, "impl": res, "tau": [str(x) for x in (orc or {}).get("tau") or []],
+                              {"case": case, "step": k, "impl": res, "tau": [str(x) for x in (orc or {}).get("tau") or []],
                                "correspondence": "model/PolicyEval.v:c02_tau rejects the harness' exact solution of tau = 1 + P_t tau (hypothesis of C02_undisc_expected_total_reward)"},
                               found=False)
         failed = [c for c, okv in zip(names, v) if not okv] if isinstance(v, list) and len(v) == len(names) else ["malformed"]
         why = compare(res, orc, g) if orc is not None else None
-        detail = {"case": case, "impl": res, "failed_clauses": failed}
+        detail = {"case": case, "step": k, "impl": res, "failed_clauses": failed}
         if why:
             detail["failing_clause"] = why
             if orc and und:
@@ -481,7 +512,7 @@ def run(ctx):
     ctx.coverage.update({
         "evaluations": nchk,
         "distinct_nontrivial": len(distinct),
-        "rule": "MDPs from harness/gen_mdp.py (1..%d states, 1..3 actions, state-dependent action sets, k/8 probabilities, zero entries, explicit/implicit absorbing states with ignored self-loop rewards, multi-state initial distributions; 55%% discounted gamma in {1/2,3/4,7/8,9/10,19/20} plus a family with gamma in {1-2^-20, 1-10^-6, 1-10^-8} and a closed non-absorbing rewarding class (values ~1e6..1e8), 45%% undiscounted with rewards <= 0, proper and improper, zero-reward regions) x random stochastic policies (deterministic rows, rows on the grid k/8 over subsets of the available actions, explicit zero entries, a share on denominators 3,5,6,7,10), given as TabularPolicy over permuted / larger state lists and permuted action lists or as FunctionalPolicy -> to_tabular; distinct = structural hash of (MDP, policy); non-trivial = at least one non-absorbing state" % (5 if tier == "quick" else 7),
+        "rule": "MDPs from harness/gen_mdp.py (1..%d states, 1..3 actions, state-dependent action sets, k/8 probabilities, zero entries, explicit/implicit absorbing states with ignored self-loop rewards, multi-state initial distributions; 55%% discounted gamma in {1/2,3/4,7/8,9/10,19/20} plus a family with gamma in {1-2^-20, 1-10^-6, 1-10^-8} and a closed non-absorbing rewarding class (values ~1e6..1e8), 45%% undiscounted with rewards <= 0, proper and improper, zero-reward regions) x random stochastic policies (deterministic rows, rows on the grid k/8 over subsets of the available actions, explicit zero entries, a share on denominators 3,5,6,7,10), given as TabularPolicy over permuted / larger state lists and permuted action lists or as FunctionalPolicy -> to_tabular; 35%% of the cases are multi-step: the same policy object is evaluated again on 1-2 MDPs with the same dynamics and re-ordered state/action lists and/or again on the first MDP, every evaluation judged separately; distinct = structural hash of (MDP, policy); non-trivial = at least one non-absorbing state" % (5 if tier == "quick" else 7),
         "samples": [{"case": cases[0], "impl": impl[0]}] if cases else [],
         "cases": len(cases),
         **cnt,
